@@ -72,9 +72,12 @@ func (d *WindowedThroughputSampler) GetSampleRate(trace *types.Trace) (rate uint
 	}
 	count := int(trace.DescendantCount())
 
-	rate = uint(d.dynsampler.GetSampleRateMulti(key, count))
-	if rate < 1 { // protect against dynsampler being broken even though it shouldn't be
+	// compare before converting: a negative rate (a negative goal/initial rate passes
+	// validation) would become a huge uint and then a negative argument to rand.Intn
+	if r := d.dynsampler.GetSampleRateMulti(key, count); r < 1 {
 		rate = 1
+	} else {
+		rate = uint(r)
 	}
 	shouldKeep := rand.Intn(int(rate)) == 0
 	d.metricsRecorder.RecordMetrics(d.dynsampler, shouldKeep, rate, n)
